@@ -36,7 +36,10 @@ type Rules struct {
 	Unit        *big.Int // tokens per unit of stake (10^18)
 	ApplyDelay  uint64
 	RefundDelay uint64
-	FeeAccount  string
+	// Due, when set, replaces Height+RefundDelay: the height at which a refund made at
+	// height now by a miner of the given type is paid out.
+	Due        func(now uint64, typ byte) uint64
+	FeeAccount string
 	// Contract: accounts that carry code.  Learned rule: a record controlled by such an
 	// account is not deleted when its whole stake is refunded; it stays as an aborted
 	// record with stake 0 (and keeps occupying the account).
@@ -247,6 +250,9 @@ func (m *Model) exec(tx Tx) (bool, string) {
 			return true, why + "-zero"
 		}
 		due := m.Height + m.R.RefundDelay
+		if m.R.Due != nil {
+			due = m.R.Due(m.Height, r.Type)
+		}
 		if m.Pending[due] == nil {
 			m.Pending[due] = map[string]*big.Int{}
 		}
